@@ -10,26 +10,9 @@ below is stated above the thresholds, which the bound `fuelFor a b ≥ 120` exce
 
 Part 2 — complex super types: one unfolding lemma per rule.
 -/
-import Verif.Model.Types.SubStruct
-import Verif.Model.Types.RulesPinned
+import Verif.Proofs.SubBase
 namespace Verif.Proofs.SubUnfold
 open Verif.Model.Types Verif.Model.Types.Struct Verif.Model.Auth
-
-abbrev R : List Rule := RulesPinned.rules
-
-theorem isSub_rule (m : Nat) (a b : Ty) (r : Rule)
-    (h : R.find? (fun r => if r.complex then b.isKind r.super else b == .prim r.super) = some r) :
-    isSub R (m + 2) a b = (a == b || (a == never || evalPred R m { sub := .ty a, super := .ty b } r.pred)) := by
-  simp only [isSub, check, h]
-  by_cases hn : a == never <;> simp [hn]
-
-theorem isSub_norule (m : Nat) (a b : Ty)
-    (h : R.find? (fun r => if r.complex then b.isKind r.super else b == .prim r.super) = none) :
-    isSub R (m + 2) a b = (a == b || a == never) := by
-  simp only [isSub, check, h]
-  by_cases hn : a == never <;> simp [hn]
-
-theorem le_add (c n : Nat) (h : c ≤ n) : ∃ m, n = m + c := ⟨n - c, by omega⟩
 
 /-- a simple super type without a rule: only equality and `Never` -/
 theorem st_norule (p : String) (a : Ty) (n : Nat) (h : 2 < n)
@@ -110,19 +93,6 @@ theorem st_HashableStruct (a : Ty) (n : Nat) (h : 28 < n) :
 
 /-! ### a sub type that is not a simple type, against a simple super type -/
 
-def NonPrim (a : Ty) : Prop := ∀ x, a ≠ .prim x
-
-theorem chkPrim_other (a : Ty) (hnp : NonPrim a) (p : String)
-    (h : (p == "Any" || p == "AnyStruct" || p == "AnyResource" || p == "AnyResourceAttachment" ||
-          p == "AnyStructAttachment" || p == "HashableStruct") = false) : chkPrim a p = false := by
-  simp only [Bool.or_eq_false_iff] at h
-  obtain ⟨⟨⟨⟨⟨h1, h2⟩, h3⟩, h4⟩, h5⟩, h6⟩ := h
-  cases a <;> first | exact absurd rfl (hnp _) | simp [chkPrim, h1, h2, h3, h4, h5, h6]
-
-theorem np_ne (a : Ty) (hnp : NonPrim a) (x : String) : (a == Ty.prim x) = false := by
-  simpa using hnp x
-theorem np_never (a : Ty) (hnp : NonPrim a) : (a == never) = false := np_ne a hnp _
-
 macro "prim_np" c:num r:ident : tactic => `(tactic| (
   rw [isSub_rule ($c - 2) _ _ $r rfl]
   simp (disch := omega) [$r:ident, evalPred, evalExpr, valEqOneOf, valEq, subValList, subVal, np_ne _ ‹NonPrim _›, np_never _ ‹NonPrim _›, *]))
@@ -181,24 +151,5 @@ theorem np_HashableStruct (a : Ty) (hnp : NonPrim a) : isSub R 28 a (.prim "Hash
     simp (disch := omega) [RulesPinned.rule5, evalPred, evalExpr, isHashable, hashable, never,
       st_Number, st_Path, np_Number _ hnp, np_Path _ hnp, np_ne _ hnp, np_never _ hnp]
 
-
-/-! ### summary for simple super types -/
-
-/-- above fuel 28 the answer against a simple super type does not depend on the fuel -/
-theorem prim_super_stable (a : Ty) (p : String) (hp : p ∈ primNames) (n : Nat) (h : 28 < n) :
-    isSub R n a (.prim p) = isSub R 120 a (.prim p) := by
-  simp only [primNames, List.mem_cons, List.not_mem_nil, or_false] at hp
-  rcases hp with rfl | rfl | rfl | rfl | rfl | rfl | rfl | rfl | rfl | rfl | rfl | rfl | rfl | rfl | rfl | rfl | rfl | rfl | rfl | rfl | rfl | rfl | rfl | rfl | rfl | rfl | rfl | rfl | rfl | rfl | rfl | rfl | rfl | rfl | rfl | rfl | rfl | rfl | rfl | rfl | rfl | rfl | rfl | rfl | rfl | rfl | rfl | rfl | rfl <;>
-    first | exact (st_SignedInteger a n (by omega)).trans (st_SignedInteger a 120 (by omega)).symm | exact (st_FixedSizeUnsignedInteger a n (by omega)).trans (st_FixedSizeUnsignedInteger a 120 (by omega)).symm | exact (st_SignedFixedPoint a n (by omega)).trans (st_SignedFixedPoint a 120 (by omega)).symm | exact (st_CapabilityPath a n (by omega)).trans (st_CapabilityPath a 120 (by omega)).symm | exact (st_Integer a n (by omega)).trans (st_Integer a 120 (by omega)).symm | exact (st_FixedPoint a n (by omega)).trans (st_FixedPoint a 120 (by omega)).symm | exact (st_SignedNumber a n (by omega)).trans (st_SignedNumber a 120 (by omega)).symm | exact (st_Path a n (by omega)).trans (st_Path a 120 (by omega)).symm | exact (st_Number a n (by omega)).trans (st_Number a 120 (by omega)).symm | exact (st_Any a n (by omega)).trans (st_Any a 120 (by omega)).symm | exact (st_AnyStruct a n (by omega)).trans (st_AnyStruct a 120 (by omega)).symm | exact (st_AnyResource a n (by omega)).trans (st_AnyResource a 120 (by omega)).symm | exact (st_AnyResourceAttachment a n (by omega)).trans (st_AnyResourceAttachment a 120 (by omega)).symm | exact (st_AnyStructAttachment a n (by omega)).trans (st_AnyStructAttachment a 120 (by omega)).symm | exact (st_HashableStruct a n (by omega)).trans (st_HashableStruct a 120 (by omega)).symm
-          | exact (st_norule _ a n (by omega) rfl).trans (st_norule _ a 120 (by omega) rfl).symm
-
-/-- a sub type that is not a simple type, against a simple super type: the structured clause -/
-theorem prim_super_np (a : Ty) (hnp : NonPrim a) (p : String) (hp : p ∈ primNames) (n : Nat) (h : 28 < n) :
-    isSub R n a (.prim p) = chkPrim a p := by
-  simp only [primNames, List.mem_cons, List.not_mem_nil, or_false] at hp
-  rcases hp with rfl | rfl | rfl | rfl | rfl | rfl | rfl | rfl | rfl | rfl | rfl | rfl | rfl | rfl | rfl | rfl | rfl | rfl | rfl | rfl | rfl | rfl | rfl | rfl | rfl | rfl | rfl | rfl | rfl | rfl | rfl | rfl | rfl | rfl | rfl | rfl | rfl | rfl | rfl | rfl | rfl | rfl | rfl | rfl | rfl | rfl | rfl | rfl | rfl <;>
-    first | exact (st_SignedInteger a n (by omega)).trans ((np_SignedInteger a hnp).trans (chkPrim_other a hnp _ rfl).symm) | exact (st_FixedSizeUnsignedInteger a n (by omega)).trans ((np_FixedSizeUnsignedInteger a hnp).trans (chkPrim_other a hnp _ rfl).symm) | exact (st_SignedFixedPoint a n (by omega)).trans ((np_SignedFixedPoint a hnp).trans (chkPrim_other a hnp _ rfl).symm) | exact (st_CapabilityPath a n (by omega)).trans ((np_CapabilityPath a hnp).trans (chkPrim_other a hnp _ rfl).symm) | exact (st_Integer a n (by omega)).trans ((np_Integer a hnp).trans (chkPrim_other a hnp _ rfl).symm) | exact (st_FixedPoint a n (by omega)).trans ((np_FixedPoint a hnp).trans (chkPrim_other a hnp _ rfl).symm) | exact (st_SignedNumber a n (by omega)).trans ((np_SignedNumber a hnp).trans (chkPrim_other a hnp _ rfl).symm) | exact (st_Path a n (by omega)).trans ((np_Path a hnp).trans (chkPrim_other a hnp _ rfl).symm) | exact (st_Number a n (by omega)).trans ((np_Number a hnp).trans (chkPrim_other a hnp _ rfl).symm)
-          | exact (st_Any a n (by omega)).trans ((np_Any a hnp).trans (by simp [chkPrim])) | exact (st_AnyStruct a n (by omega)).trans ((np_AnyStruct a hnp).trans (by simp [chkPrim])) | exact (st_AnyResource a n (by omega)).trans ((np_AnyResource a hnp).trans (by simp [chkPrim])) | exact (st_AnyResourceAttachment a n (by omega)).trans ((np_AnyResourceAttachment a hnp).trans (by simp [chkPrim])) | exact (st_AnyStructAttachment a n (by omega)).trans ((np_AnyStructAttachment a hnp).trans (by simp [chkPrim])) | exact (st_HashableStruct a n (by omega)).trans ((np_HashableStruct a hnp).trans (by simp [chkPrim]))
-          | exact (st_norule _ a n (by omega) rfl).trans ((np_norule _ a hnp rfl).trans (chkPrim_other a hnp _ rfl).symm)
 
 end Verif.Proofs.SubUnfold
